@@ -1344,6 +1344,7 @@ func fanoutRule(c *core.Ctx) {
 	pos := c.Prog.Pos(build.Pos())
 	p := prover.New(build)
 	nGo := 0
+	captured := map[*ssa.Alloc]int{}
 	for _, b := range build.Blocks {
 		for _, ins := range b.Instrs {
 			var closure *ssa.MakeClosure
@@ -1394,6 +1395,15 @@ func fanoutRule(c *core.Ctx) {
 						if ins, ok := bind.(ssa.Instruction); ok && !loop.Blocks[ins.Block()] {
 							bad = append(bad, "value "+name+" defined outside the loop is captured")
 						}
+					}
+				}
+			}
+			// one goroutine per candidate: a per-iteration variable handed to two goroutines is worked on by both at once
+			for k, bind := range closure.Bindings {
+				if al, isAl := bind.(*ssa.Alloc); isAl && loop != nil && loop.Blocks[al.Block()] {
+					captured[al]++
+					if captured[al] > 1 {
+						bad = append(bad, "variable "+closure.Fn.(*ssa.Function).FreeVars[k].Name()+" of this iteration is handed to more than one goroutine: they run the same candidate concurrently")
 					}
 				}
 			}
